@@ -248,17 +248,33 @@ def r1f_score_precondition(repo, rep, closure):
             continue
           n += 1
           derived = True
+          unknown_origin = False
           for d in ds:
             a = d.value.args[0] if d.value.args else None
             if isinstance(a, ast.Call) and norm(a.func) in ('copy.deepcopy', 'deepcopy') and a.args:
               a = a.args[0]
-            dd = rd.single_def(d.node, a.id) if isinstance(a, ast.Name) else None
-            y = dd.value.args[0] if dd is not None and isinstance(dd.value, ast.Call) and dd.value.args else None
-            yt = norm(rd.expand(dd.node, y)[0]) if y is not None else ''
+            # the diagnostics object, looked through aliases / tuple unpacking, down to its constructor call
+            ctor = rd.expand(d.node, a, aliases=True)[0] if a is not None else None
+            yt = ''
+            if isinstance(ctor, ast.Call) and norm(ctor.func).split('.')[-1] == 'TBRMMDiagnostics' and ctor.args:
+              yt = norm(ctor.args[0])
+            elif isinstance(ctor, ast.Name):
+              ok_all = True
+              for dd in rd.defs_at(d.node, ctor.id):
+                val = rd.expand(dd.node, dd.value, aliases=True)[0] if dd.how == 'assign' and dd.value is not None else None
+                if not (isinstance(val, ast.Call) and norm(val.func).split('.')[-1] == 'TBRMMDiagnostics' and val.args
+                        and norm(val.args[0]).startswith('self.data.aggregate_time_series(')):
+                  ok_all = False
+              yt = 'self.data.aggregate_time_series(' if ok_all and rd.defs_at(d.node, ctor.id) else ''
             if not yt.startswith('self.data.aggregate_time_series('):
               derived = False
+              if not (isinstance(ctor, ast.Call) and norm(ctor.func).split('.')[-1] == 'TBRMMDiagnostics'):
+                unknown_origin = True       # e.g. handed over by a generator / parameter: origin not visible here
           stored_first = any(m.kind == 'stmt' and isinstance(m.ast, ast.Assign) and any(norm(t) == '%s.score' % S for t in m.ast.targets) and m is not node
                              for m in doms.get(node, ()))
+          if not (derived or stored_first) and unknown_origin:
+            rep.undecided('R1f/optional-deref', '%s: read of %s.score' % (f.name, S), 'the diagnostics object behind the score is not constructed in this function: its origin is not visible', f.loc(sub))
+            continue
           rep.check(derived or stored_first, 'R1f/optional-deref', '%s: %s.score is evaluated only for data-derived diagnostics (or after a score was stored)' % (f.name, S),
                     f.qualname, 'read of %s.score' % S,
                     '%s evaluates %s.score for a diagnostics object that is not built from the data window (the precondition "window >= n_test + 3" does not cover it): '
@@ -300,9 +316,17 @@ def r1d_greedy_keys(repo, rep):
   parts = [t.left, t.right] if isinstance(t, ast.BinOp) and isinstance(t.op, ast.BitOr) else (list(t.values) if isinstance(t, ast.BoolOp) and isinstance(t.op, ast.Or) else [])
   flag = [norm(p) for p in parts if isinstance(p, ast.Name)]
   cnt = [p.left.id for p in parts if isinstance(p, ast.Compare) and isinstance(p.left, ast.Name)]
-  rep.check(len(flag) == 1, 'R1d/dict-keys', 'the loop can only exit when no matching is pending (the flag is a disjunct of the guard)', f.qualname, 'while %s' % norm(t),
-            'the loop guard `%s` does not keep the loop running while a matching step is pending: the loop can exit before the control group of the last treatment size is stored, '
-            'and the final loop reads a missing dictionary key (KeyError)' % norm(t), f.loc(w))
+  if len(flag) != 1:
+    # recognised bad shape: the guard is the size test alone (the pending-matching flag was dropped from it)
+    alone = isinstance(t, ast.Compare) and len(t.ops) == 1 and isinstance(t.left, ast.Name) and isinstance(t.ops[0], (ast.Lt, ast.LtE))
+    if alone:
+      rep.violation('R1d/dict-keys', f.qualname, 'while %s' % norm(t),
+                    'the loop guard `%s` does not keep the loop running while a matching step is pending: the loop can exit before the control group of the last treatment size is stored, '
+                    'and the final loop reads a missing dictionary key (KeyError)' % norm(t), f.loc(w))
+    else:
+      rep.undecided('R1d/dict-keys', 'greedy loop guard `%s`' % norm(t)[:60], 'not of the form (size test) or (pending flag): the key certificate is not established for this loop shape', f.loc(w))
+    return
+  rep.ok('R1d/dict-keys', 'the loop can only exit when no matching is pending (the flag is a disjunct of the guard)', loc=f.loc(w))
   if len(flag) != 1 or len(cnt) != 1:
     return
   flag, k = flag[0], cnt[0]
@@ -333,12 +357,22 @@ def r1d_greedy_keys(repo, rep):
     out = set()
     for m in blk:
       if m.kind == 'stmt' and isinstance(m.ast, ast.Assign):
+        flat = []
         for tg in m.ast.targets:
+          flat += list(tg.elts) if isinstance(tg, (ast.Tuple, ast.List)) else [tg]
+        for tg in flat:
           if isinstance(tg, ast.Subscript) and isinstance(tg.value, ast.Name) and tg.value.id in dicts and norm(tg.slice) == key:
             out.add(tg.value.id)
     return out
   C = set.intersection(*[stores_in(block_of(n), k) for n in clears]) if clears else set()
-  T = set.intersection(*[stores_in(block_of(n), '%s + 1' % k) for n in incs]) if incs else set()
+  def next_key_stores(inc):
+    """Tables receiving the entry of the next size in the block of the increment: `D[k + 1] = ..` before it or
+    `D[k] = ..` after it."""
+    blk = block_of(inc)
+    before = {m for m in blk if m.id < inc.id}
+    after = {m for m in blk if m.id > inc.id}
+    return stores_in(before, '%s + 1' % k) | stores_in(before, '1 + %s' % k) | stores_in(after, k)
+  T = set.intersection(*[next_key_stores(n) for n in incs]) if incs else set()
   rep.check(bool(clears) and bool(C), 'R1d/dict-keys', 'the flag is cleared only together with a store under the current key (%s)' % sorted(C), f.qualname,
             '%s = False' % flag, 'the matching flag is cleared without storing the matched control group under the current key: a later read of that key fails (KeyError)',
             f.loc(clears[0].ast) if clears else f.loc(w))
